@@ -17,8 +17,8 @@
      pure K inp mode q               specification: attribute q as a plain function of the inputs (no Preloads, no cache)
      [code]                          the code that exists (copy.copy kept; repaired mapping data_vector);
      [no_copy], [unguarded]          the two mutants *)
-From Coq Require Import List Arith Bool ZArith.
-From PAV Require Import Base.Res Base.Check Model.C15 Proofs.C15.
+From Coq Require Import List Arith Bool ZArith Reals.
+From PAV Require Import Base.Res Base.Check Base.NumOps Model.C03 Model.C04 Model.C04Lib Proofs.C04 Model.C15 Proofs.C15 Model.C15k Proofs.C15k Proofs.C15s Proofs.C15f Proofs.C15x.
 Import ListNotations.
 
 (* 1. Transparency: for every subset of slots filled with fresh values, every sequence of attribute reads returns
@@ -70,7 +70,8 @@ Theorem C15_formalism_choice_value_free :
   forall (T : Type) (K : kernels T) (inp : input T) (w : wtilde T),
     p_dv K inp (Some w) = p_dv K inp None ->
     p_curv K inp (Some w) = p_curv K inp None ->
-    (forall s, mapped_wt K inp (lf_fresh K inp) s = mapped_map K inp (omm_list_of K inp (lf_fresh K inp)) s) ->
+    (forall s, p_rec K inp None = Ok s ->
+               mapped_wt K inp (lf_fresh K inp) s = mapped_map K inp (omm_list_of K inp (lf_fresh K inp)) s) ->
     forall q, pure K inp (Some w) q = pure K inp None q.
 Proof. exact formalism_choice_value_free. Qed.
 
@@ -132,7 +133,8 @@ Proof. exact (conj pB_fresh pC_fresh). Qed.
 (* theorem 6 *)
 Example C15_hyps_formalism :
   p_dv zk2 inpD (Some (ds_wt zds)) = p_dv zk2 inpD None /\ p_curv zk2 inpD (Some (ds_wt zds)) = p_curv zk2 inpD None
-  /\ (forall s, mapped_wt zk2 inpD (lf_fresh zk2 inpD) s = mapped_map zk2 inpD (omm_list_of zk2 inpD (lf_fresh zk2 inpD)) s).
+  /\ (forall s, p_rec zk2 inpD None = Ok s ->
+                mapped_wt zk2 inpD (lf_fresh zk2 inpD) s = mapped_map zk2 inpD (omm_list_of zk2 inpD (lf_fresh zk2 inpD)) s).
 Proof. exact formalism_hyps_hold. Qed.
 (* theorem 7 *)
 Example C15_hyps_noise : choose_wt inpA pA = true /\ s_wt pA = Some (ds_wt zds).
@@ -141,6 +143,196 @@ Proof. split; reflexivity. Qed.
 (* theorem 7b *)
 Example C15_hyps_dvm_shortcut : shape_dv_wt zk /\ has_func inpD = false.
 Proof. exact (conj zk_shape inpD_no_func). Qed.
+
+(* ================================================================================================================== *)
+(* 9. The kernel identities are THEOREMS for the concrete kernels.  [KR c m Kp encf dec slv ldc ldr] (Model/C15k.v) is the kernel
+      record filled with the C04 / C03 model of the real routines, over the reals:  c = the Convolver built from mask m and PSF Kp,
+      encf = the unique-mapping encoding of a mapper, dec = the (curvature_preload, indexes, lengths) triple of a w_tilde object,
+      slv / ldc / ldr = solver and log-determinants (arbitrary).  [wf_input c encf np inp]: np data pixels; every mapper's mapping
+      matrix is np x P, has no operated override and its encoding stands for it; every function object's operated matrix is np x P;
+      the convolver's frames address np pixels.  Nothing is assumed about noise, data or the PSF values. *)
+Theorem C15_kernel_identities_hold_for_C04_kernels :
+  forall (c : @convolver ROps) (m : mask) (Kp : @kernel ROps) (encf : list (list R) -> @C04.enc ROps)
+         (dec : list (list R) -> list R * list nat * list nat) slv ldc ldr (inp : input R) (np : nat),
+    wf_input c encf np inp ->
+    forall mode p, laws_for (KR c m Kp encf dec slv ldc ldr) inp mode p.
+Proof. exact c04_laws_for. Qed.
+(* ... hence transparency, reuse and "every read is the specification value" without any kernel hypothesis *)
+Theorem C15_preload_transparent_C04_kernels :
+  forall (c : @convolver ROps) (m : mask) (Kp : @kernel ROps) encf dec slv ldc ldr (inp : input R) (np : nat),
+    wf_input c encf np inp ->
+    forall (p : pstore R) (qs : list qty),
+    factory_slots_neutral inp p ->
+    (forall mode, make_inversion (KR c m Kp encf dec slv ldc ldr) inp p = Ok mode -> fresh_store (KR c m Kp encf dec slv ldc ldr) inp mode p) ->
+    fst (run_inversion (KR c m Kp encf dec slv ldc ldr) inp code p qs) = fst (run_inversion (KR c m Kp encf dec slv ldc ldr) inp code empty_store qs).
+Proof. exact c04_preload_transparent. Qed.
+Theorem C15_reuse_any_history_C04_kernels :
+  forall (c : @convolver ROps) (m : mask) (Kp : @kernel ROps) encf dec slv ldc ldr (inp : input R) (np : nat),
+    wf_input c encf np inp ->
+    forall (p : pstore R) (h : list (list qty)),
+    factory_slots_neutral inp p ->
+    (forall mode, make_inversion (KR c m Kp encf dec slv ldc ldr) inp p = Ok mode -> fresh_store (KR c m Kp encf dec slv ldc ldr) inp mode p) ->
+    fst (run_history (KR c m Kp encf dec slv ldc ldr) inp code p h)
+    = map (fun qs => fst (run_inversion (KR c m Kp encf dec slv ldc ldr) inp code empty_store qs)) h /\
+    frozen_eq p (snd (run_history (KR c m Kp encf dec slv ldc ldr) inp code p h)).
+Proof. exact c04_reuse_any_history. Qed.
+Theorem C15_every_read_is_specified_C04_kernels :
+  forall (c : @convolver ROps) (m : mask) (Kp : @kernel ROps) encf dec slv ldc ldr (inp : input R) (np : nat),
+    wf_input c encf np inp ->
+    forall mode (h : list (list qty)) (p : pstore R),
+    make_inversion (KR c m Kp encf dec slv ldc ldr) inp p = Ok mode -> fresh_store (KR c m Kp encf dec slv ldc ldr) inp mode p ->
+    fst (run_history (KR c m Kp encf dec slv ldc ldr) inp code p h) = map (fun qs => Ok (map (pure (KR c m Kp encf dec slv ldc ldr) inp mode) qs)) h.
+Proof. exact c04_every_read_is_specified. Qed.
+(* the identity behind Preloads.data_linear_func_matrix_dict, for every encoding, frame table and weight matrix *)
+Theorem C15_data_linear_func_matrix_identity :
+  forall (e : @C04.enc ROps) (P : nat) (cw : list (list R)) (frames : list (list (nat * R))),
+    enc_ok e P -> length (e_dw e) = length cw -> (0 < length cw)%nat ->
+    @off_via_dlfm ROps (@data_linear_func_matrix ROps cw frames) e P = @off_mapper_func ROps e P cw frames.
+Proof. exact off_via_dlfm_eq_off_mapper_func. Qed.
+(* the mapping class's short cut, for arbitrary kernels: two laws of the data-vector kernel suffice *)
+Theorem C15_dvm_shortcut_mapping :
+  forall (T : Type) (K : kernels T) (inp : input T),
+    shape_dv_map K inp -> hcat_dv_map K inp -> mappers_plain inp -> has_func inp = false -> p_dvm K inp None = p_dv K inp None.
+Proof. exact dvm_law_map. Qed.
+
+(* 10. The factory's choice between the formalisms is value-free for the concrete kernels: the structural code of Model/C15.v run
+       with the C04 kernels computes, for the translated object list, the very lists D_wt / D_mapping / F_wt / F_mapping of the
+       C04 model (two independently written models of w_tilde.py / mapping.py agree), and C04's theorems make them equal.
+       Hypotheses: rectangular mask, Convolver.__init__ succeeded, well-formed objects, one data / noise value per pixel, strictly
+       positive noise, the solver returns one value per parameter, dataset.w_tilde holds the preload of this noise map and PSF
+       and passes check_noise_map. *)
+Theorem C15_formalism_choice_value_free_C04_kernels :
+  forall (c : @convolver ROps) (m : mask) (Kp : @kernel ROps) encf dec slv ldc ldr (inp : input R) (np : nat),
+    wf_input c encf np inp -> objs inp <> [] ->
+    forall (w : wtilde R) (pre : list R) (idx lens : list nat),
+    dec (wt_w w) = (pre, idx, lens) ->
+    rectb m = true -> @convolver_init ROps m Kp = Ok c -> np = length (unmasked m) ->
+    length (C15.n inp) = np -> (forall i, (i < np)%nat -> (0 < nth i (C15.n inp) 0)%R) ->
+    @preload ROps (@native ROps m (C15.n inp)) Kp (unmasked m) = (pre, idx, lens) ->
+    length (C15.d inp) = np ->
+    (forall A b sv, slv A b = Ok sv -> length sv = length b) ->
+    forall q, pure (KR c m Kp encf dec slv ldc ldr) inp (Some w) q = pure (KR c m Kp encf dec slv ldc ldr) inp None q.
+Proof. exact c04_formalism_choice_value_free. Qed.
+Theorem C15_factory_choice_value_free_C04_kernels :
+  forall (c : @convolver ROps) (m : mask) (Kp : @kernel ROps) encf dec slv ldc ldr (inp : input R),
+    rectb m = true -> @convolver_init ROps m Kp = Ok c ->
+    wf_input c encf (length (unmasked m)) inp -> in_objs inp <> [] ->
+    length (ds_d (in_ds inp)) = length (unmasked m) -> length (ds_n (in_ds inp)) = length (unmasked m) ->
+    (forall i, (i < length (unmasked m))%nat -> (0 < nth i (ds_n (in_ds inp)) 0)%R) ->
+    (forall A b sv, slv A b = Ok sv -> length sv = length b) ->
+    dec (wt_w (ds_wt (in_ds inp))) = @preload ROps (@native ROps m (ds_n (in_ds inp))) Kp (unmasked m) ->
+    wt_nv (ds_wt (in_ds inp)) = hd 0%R (ds_n (in_ds inp)) ->
+    forall qs,
+    fst (run_inversion (KR c m Kp encf dec slv ldc ldr) (with_wt true inp) code empty_store qs)
+    = fst (run_inversion (KR c m Kp encf dec slv ldc ldr) (with_wt false inp) code empty_store qs).
+Proof. exact c04_factory_choice_value_free. Qed.
+
+(* 11. Preloads.set_*(fit_0, fit_1) -- the production path that fills the slots.  [make_fit K inp own]: the inversion of a fit
+       as the factory builds it (own = its own Preloads object); [freads]: attributes read from it; [run_setters K code Cm ss P f0 f1]:
+       the methods ss (any of set_w_tilde_imaging, set_operated_mapping_matrix_with_preloads, set_linear_func_inversion_dicts,
+       set_curvature_matrix, set_regularization_matrix_and_term, in any order, repetitions allowed) called on the Preloads object P
+       with the two fits; Cm = the three "max |a - b| < 1e-8" comparisons (arbitrary).  For EVERY second fit f1 (any inputs, any
+       state): what the methods store satisfies the invariant [consistent] (= the premise of theorems 1-5 in semantic form), fit_0's
+       inversion keeps returning the specification values whatever is read from it afterwards (the repair 1fc8a9b: a copy, not an
+       alias, of its cached curvature matrix is stored), and every later history of inversions that the factory builds in fit_0's
+       class on fit_0's inputs returns the specification values. *)
+Theorem C15_set_preloads_store_fresh_values :
+  forall (T : Type) (K : kernels T) (Cm : cmpk T) (inp0 : input T) (own0 : pstore T) (f0 f1 : fit T)
+         (reads0 : list qty) (ss : list setter) (P : pstore T),
+    make_fit K inp0 own0 = Ok f0 -> consistent K inp0 (f_mode f0) own0 -> set_laws K inp0 (f_mode f0) ->
+    consistent K inp0 (f_mode f0) P ->
+    let f0a := snd (freads K code f0 reads0) in
+    let r := run_setters K code Cm ss P f0a f1 in
+    let P' := snd (fst (fst r)) in
+    consistent K inp0 (f_mode f0) P' /\
+    (forall reads1, fst (freads K code (snd (fst r)) reads1) = map (pure K inp0 (f_mode f0)) reads1) /\
+    (forall h, make_inversion K inp0 P' = Ok (f_mode f0) ->
+               fst (run_history K inp0 code P' h) = map (fun qs => Ok (map (pure K inp0 (f_mode f0)) qs)) h).
+Proof. exact set_preloads_fresh. Qed.
+Theorem C15_set_preloads_store_fresh_values_C04_kernels :
+  forall (c : @convolver ROps) (m : mask) (Kp : @kernel ROps) encf dec slv ldc ldr (Cm : cmpk R)
+         (inp0 : input R) (np : nat) own0 f0 f1 reads0 ss P,
+    wf_input c encf np inp0 ->
+    make_fit (KR c m Kp encf dec slv ldc ldr) inp0 own0 = Ok f0 ->
+    consistent (KR c m Kp encf dec slv ldc ldr) inp0 (f_mode f0) own0 ->
+    consistent (KR c m Kp encf dec slv ldc ldr) inp0 (f_mode f0) P ->
+    let K := KR c m Kp encf dec slv ldc ldr in
+    let r := run_setters K code Cm ss P (snd (freads K code f0 reads0)) f1 in
+    let P' := snd (fst (fst r)) in
+    consistent K inp0 (f_mode f0) P' /\
+    (forall reads1, fst (freads K code (snd (fst r)) reads1) = map (pure K inp0 (f_mode f0)) reads1) /\
+    (forall h, make_inversion K inp0 P' = Ok (f_mode f0) ->
+               fst (run_history K inp0 code P' h) = map (fun qs => Ok (map (pure K inp0 (f_mode f0)) qs)) h).
+Proof. exact c04_set_preloads_fresh. Qed.
+(* 12. ... ACROSS the two classes, for the concrete kernels.  The fits of the preload set-up may be built in one formalism (in
+       production the mapping formalism, Preloads(use_w_tilde=False)) while set_w_tilde_imaging makes the factory build the OTHER
+       class afterwards: slots produced by one class are consumed by the other (this is where defect f780999 lived).  If fit_0's
+       inversion has no array preloads of its own ([plain]), then for every second fit, every methods list, every attributes read
+       beforehand and WHICHEVER class the factory builds with the filled Preloads object, every history of inversions on fit_0's
+       inputs returns the specification values of fit_0's class.  Ingredients: the methods store exactly the fresh values of
+       fit_0's class (incl. the mapping class's mapper-diag blocks); a mapper's data-vector block and curvature block are the SAME
+       LISTS in the two classes (B^T N^-1 d from the blurred mapping matrix = from w_tilde_data; np.dot block = w-tilde preload block;
+       the block-diagonal matrix is symmetric so the mirror leaves it alone); theorem 10. *)
+Theorem C15_set_preloads_any_class_C04_kernels :
+  forall (c : @convolver ROps) (m : mask) (Kp : @kernel ROps) encf dec slv ldc ldr (Cm : cmpk R) (inp : input R),
+    rectb m = true -> @convolver_init ROps m Kp = Ok c ->
+    wf_input c encf (length (unmasked m)) inp -> in_objs inp <> [] ->
+    length (ds_d (in_ds inp)) = length (unmasked m) -> length (ds_n (in_ds inp)) = length (unmasked m) ->
+    (forall i, (i < length (unmasked m))%nat -> (0 < nth i (ds_n (in_ds inp)) 0)%R) ->
+    (forall A b sv, slv A b = Ok sv -> length sv = length b) ->
+    tok_ok m Kp dec inp (ds_wt (in_ds inp)) ->
+    forall own0 f0 f1 reads0 ss,
+    make_fit (KR c m Kp encf dec slv ldc ldr) inp own0 = Ok f0 -> plain R own0 -> wt_slot_ok m Kp dec inp own0 ->
+    let K := KR c m Kp encf dec slv ldc ldr in
+    let r := run_setters K code Cm ss empty_store (snd (freads K code f0 reads0)) f1 in
+    let P' := snd (fst (fst r)) in
+    forall mode' h, make_inversion K inp P' = Ok mode' ->
+      fst (run_history K inp code P' h) = map (fun qs => Ok (map (pure K inp (f_mode f0)) qs)) h.
+Proof. exact c04_set_preloads_any_class. Qed.
+(* the two block identities of 12 on their own *)
+Theorem C15_mapper_blocks_same_in_both_classes :
+  forall (c : @convolver ROps) (m : mask) (Kp : @kernel ROps) encf dec slv ldc ldr (inp : input R) (np : nat),
+    wf_input c encf np inp -> rectb m = true -> @convolver_init ROps m Kp = Ok c -> np = length (unmasked m) ->
+    length (C15.n inp) = np -> length (C15.d inp) = np -> (forall i, (i < np)%nat -> (0 < nth i (C15.n inp) 0)%R) ->
+    forall (w : wtilde R) (pre : list R) (idx lens : list nat),
+    dec (wt_w w) = (pre, idx, lens) -> @preload ROps (@native ROps m (C15.n inp)) Kp (unmasked m) = (pre, idx, lens) ->
+    p_dvm (KR c m Kp encf dec slv ldc ldr) inp None = p_dvm (KR c m Kp encf dec slv ldc ldr) inp (Some w) /\
+    p_cmd_map (KR c m Kp encf dec slv ldc ldr) inp = p_cmd (KR c m Kp encf dec slv ldc ldr) inp w.
+Proof. exact mapper_blocks_same. Qed.
+Example C15_hyps_any_class :
+  let K := KR exC exM exK (@dense_enc ROps) exDec exSlv (fun _ => Ok 0%R) (fun _ => Ok 0%R) in
+  (exists f0, make_fit K exInp empty_store = Ok f0 /\ f_mode f0 = Some (ds_wt (in_ds exInp))) /\
+  plain R empty_store /\ wt_slot_ok exM exK exDec exInp empty_store /\ tok_ok exM exK exDec exInp (ds_wt (in_ds exInp)).
+Proof. exact ex_any_class_hyps. Qed.
+
+(* non-vacuity of 11: one regularized mapper, mapping class; all five methods fill curvature_matrix, operated_mapping_matrix,
+   regularization_matrix, the log-determinant and use_w_tilde, and the factory still builds fit_0's class *)
+Example C15_hyps_set_preloads :
+  make_fit zk inpB empty_store = Ok fitB /\ consistent zk inpB (f_mode fitB) empty_store /\
+  set_laws zk inpB (f_mode fitB) /\
+  (let P' := snd (fst (fst (run_setters zk code zcmp [SetWt; SetOmm; SetLf; SetCurv; SetReg] empty_store
+                                         (snd (freads zk code fitB [QCurv])) fitB))) in
+   s_curv P' = Some [[1]]%Z /\ s_omm P' = Some [[1]; [1]]%Z /\ s_reg P' = Some [[1]]%Z /\ s_ldr P' = Some 9%Z /\
+   s_use_wt P' = Some true /\ s_dvm P' = None /\ make_inversion zk inpB P' = Ok None).
+Proof. exact set_toy_hyps. Qed.
+
+(* non-vacuity of the hypotheses of 9 and 10: (a) every mapping matrix has an encoding that stands for it (the dense one), so
+   [encf := dense_enc] meets the encoding clauses of [wf_input] for every mapper; (b) a 3x4 mask with two unmasked pixels, a signed
+   3x3 PSF, noise (1, 2), a function list with an operated override followed by a regularized mapper meets every hypothesis *)
+Example C15_hyps_encoding_exists :
+  forall (M : list (list R)) n P, shape n P M -> (0 < n)%nat ->
+    enc_ok (@dense_enc ROps M) P /\ represents (@dense_enc ROps M) M n P /\
+    length (e_dw (@dense_enc ROps M)) = n /\ length (e_du (@dense_enc ROps M)) = n /\ length M = n /\ @C04.ncols ROps M = P.
+Proof. exact dense_enc_wf. Qed.
+Example C15_hyps_C04_kernels :
+  rectb exM = true /\ @convolver_init ROps exM exK = Ok exC /\
+  wf_input exC (@dense_enc ROps) (length (unmasked exM)) exInp /\ in_objs exInp <> [] /\
+  length (ds_d (in_ds exInp)) = length (unmasked exM) /\ length (ds_n (in_ds exInp)) = length (unmasked exM) /\
+  (forall i, (i < length (unmasked exM))%nat -> (0 < nth i (ds_n (in_ds exInp)) 0)%R) /\
+  (forall A b sv, exSlv A b = Ok sv -> length sv = length b) /\
+  exDec (wt_w (ds_wt (in_ds exInp))) = @preload ROps (@native ROps exM (ds_n (in_ds exInp))) exK (unmasked exM) /\
+  wt_nv (ds_wt (in_ds exInp)) = hd 0%R (ds_n (in_ds exInp)).
+Proof. exact ex_choice_hyps. Qed.
 
 Print Assumptions C15_preload_transparent.
 Print Assumptions C15_dvm_shortcut_wtilde.
@@ -154,3 +346,15 @@ Print Assumptions C15_raise_is_stable.
 Print Assumptions C15_no_copy_refuted.
 Print Assumptions C15_unguarded_refuted.
 Print Assumptions C15_completed_in_place.
+Print Assumptions C15_kernel_identities_hold_for_C04_kernels.
+Print Assumptions C15_preload_transparent_C04_kernels.
+Print Assumptions C15_reuse_any_history_C04_kernels.
+Print Assumptions C15_every_read_is_specified_C04_kernels.
+Print Assumptions C15_data_linear_func_matrix_identity.
+Print Assumptions C15_dvm_shortcut_mapping.
+Print Assumptions C15_formalism_choice_value_free_C04_kernels.
+Print Assumptions C15_factory_choice_value_free_C04_kernels.
+Print Assumptions C15_set_preloads_store_fresh_values.
+Print Assumptions C15_set_preloads_store_fresh_values_C04_kernels.
+Print Assumptions C15_set_preloads_any_class_C04_kernels.
+Print Assumptions C15_mapper_blocks_same_in_both_classes.
